@@ -61,8 +61,13 @@ func C03() *vk.Check {
 // C05 — loaded symbols live as long as their stack level
 func C05() *vk.Check {
 	mc := &modelCheck{ID: "C05", Kinds: kinds("calls", "cache", "page-text", "over-limit", "exec-error"), Drivers: []string{"long", "mem", "fs"}, HistLen: [2]int{4, 30}, N: [2]int{4000, 120000},
+		// the persisted drivers go on past the end of the session (restart after a graceful end, TERMINATE cleared by the
+		// client after CROAK / dead ends): every purge of the cache must be followed by fresh loads
+		PastEnd: true,
+		Hist:    func(r *vk.RNG, a *app.App) []string { return histWithClears(r, a, 4, 30) },
 		Profile: func(r *vk.RNG) app.Profile {
 			p := specProfile(r)
+			p.Croak = r.Chance(1, 2)
 			p.BigValues = r.Chance(1, 2)
 			p.EmptyResults = true
 			p.FixedSizes = r.Chance(1, 3)
@@ -71,7 +76,7 @@ func C05() *vk.Check {
 		},
 		NonTrivial: func(s *sessStats) bool { return s.Calls >= 2 && s.MaxDepth >= 2 }}
 	return &vk.Check{ID: "C05", Level: "exploration", MinEvaluations: 300, Shards: func(string) int { return 16 }, Run: mc.run,
-		Rule:        "reference-model monitor: programs that LOAD the same symbol at several depths, re-enter nodes, RELOAD symbols loaded higher up, RELOAD to empty, MAP then move, with declared sizes {1..65535} and results of length {0, limit-1, limit, limit+1, 65536+limit±, 70000}; histories descend, ascend (_ ^) and re-enter. Per request the external-call log [(sym,input)] must equal the model's; after each request the real cache (keys, values, limits per scope; live and decoded stored snapshot) must equal the model's scopes; every non-paginated page must equal the model's text (so every sym#n shown is the current one and only mapped symbols are shown); no value longer than its limit may be stored. distinct = hash(app, history, driver); non-trivial = at least 2 external calls and depth >= 2.",
+		Rule:        "reference-model monitor: programs that LOAD the same symbol at several depths, re-enter nodes, RELOAD symbols loaded higher up, RELOAD to empty, MAP then move, with declared sizes {1..65535} and results of length {0, limit-1, limit, limit+1, 65536+limit±, 70000}; histories descend, ascend (_ ^), re-enter, and in the persisted drivers continue past the end of the session (graceful restart; CROAK purge and dead ends with TERMINATE cleared by the client). Per request the external-call log [(sym,input)] must equal the model's; after each request the real cache (keys, values, limits per scope; live and decoded stored snapshot) must equal the model's scopes; every non-paginated page must equal the model's text (so every sym#n shown is the current one and only mapped symbols are shown); no value longer than its limit may be stored. distinct = hash(app, history, driver); non-trivial = at least 2 external calls and depth >= 2.",
 		Assumptions: []string{modelAssumption}}
 }
 
